@@ -55,7 +55,7 @@ func (r outRec) build(v6 bool) *route.Path {
 	for _, c := range r.Comm {
 		comm = append(comm, commByName[c])
 	}
-	sort.Slice(comm, func(i, j int) bool { return comm[i] < comm[j] })
+	sort.Slice(comm, func(i, j int) bool { return (comm[i] < comm[j]) == (r.ID%2 == 0) })
 	p := buildRibPath(ribPath{LP: r.LP, MED: r.MED, NH: r.NH, ASP: r.ASP, OID: r.OID, CL: r.CLV, OTC: r.OTC}, v6, r.EBGP,
 		addr(v6, r.Src).Ptr(), comm)
 	p.BGPPath.BGPPathA.BGPIdentifier = r.ID
